@@ -128,6 +128,8 @@ impl Cfg {
 pub enum Op {
     Exec { sender: String, contract: String, msg: String, #[serde(with = "funds_s")] funds: Vec<(String, u128)> },
     Hook { native_sender: String, channel: String, #[serde(with = "u128s")] amount: u128, contract: String, msg: String },
+    /// like Hook, but the native account sends some OTHER token of the native chain (its voucher has another ibc/ denom)
+    HookForeign { native_sender: String, channel: String, token: String, #[serde(with = "u128s")] amount: u128, contract: String, msg: String },
     Relay { channel: String, seq: u64, outcome: String },
     Sudo { contract: String, msg: String },
     Advance { secs: u64 },
@@ -136,6 +138,7 @@ pub enum Op {
     BankMint { addr: String, denom: String, #[serde(with = "u128s")] amount: u128 },
     NativeMint { addr: String, #[serde(with = "u128s")] amount: u128 },
     NativeBurn { addr: String, #[serde(with = "u128s")] amount: u128 },
+    NativeMintToken { addr: String, token: String, #[serde(with = "u128s")] amount: u128 },
     OpenChannel { channel: String },
     /// probes: executed on a throw-away clone of the world (hostile lane); only panics matter
     QueryProbe { contract: String, msg: String },
@@ -152,10 +155,12 @@ impl Op {
     }
     pub fn kind(&self) -> String {
         match self {
-            Op::Exec { msg, .. } | Op::Hook { msg, .. } => {
+            Op::Exec { msg, .. } | Op::Hook { msg, .. } | Op::HookForeign { msg, .. } => {
                 let v: Value = serde_json::from_str(msg).unwrap_or(Value::Null);
                 let k = v.as_object().and_then(|o| o.keys().next().cloned()).unwrap_or_else(|| "malformed".into());
-                if matches!(self, Op::Hook { .. }) {
+                if matches!(self, Op::HookForeign { .. }) {
+                    format!("hookforeign:{k}")
+                } else if matches!(self, Op::Hook { .. }) {
                     format!("hook:{k}")
                 } else {
                     k
@@ -169,6 +174,7 @@ impl Op {
             Op::BankMint { .. } => "bank_mint".into(),
             Op::NativeMint { .. } => "native_mint".into(),
             Op::NativeBurn { .. } => "native_burn".into(),
+            Op::NativeMintToken { .. } => "native_mint_token".into(),
             Op::OpenChannel { .. } => "open_channel".into(),
             Op::QueryProbe { .. } => "probe:query".into(),
             Op::SudoProbe { .. } => "probe:sudo".into(),
@@ -180,7 +186,7 @@ impl Op {
     }
     pub fn msg_value(&self) -> Value {
         match self {
-            Op::Exec { msg, .. } | Op::Hook { msg, .. } | Op::Sudo { msg, .. } | Op::ExecProbe { msg, .. } | Op::QueryProbe { msg, .. } => serde_json::from_str(msg).unwrap_or(Value::Null),
+            Op::Exec { msg, .. } | Op::Hook { msg, .. } | Op::HookForeign { msg, .. } | Op::Sudo { msg, .. } | Op::ExecProbe { msg, .. } | Op::QueryProbe { msg, .. } => serde_json::from_str(msg).unwrap_or(Value::Null),
             _ => Value::Null,
         }
     }
@@ -287,6 +293,7 @@ impl Sc {
         match op {
             Op::Exec { sender, contract, msg, funds } => self.w.exec(sender, contract, msg, funds),
             Op::Hook { native_sender, channel, amount, contract, msg } => self.w.hook_transfer(native_sender, channel, *amount, contract, msg),
+            Op::HookForeign { native_sender, channel, token, amount, contract, msg } => self.w.hook_transfer_token(native_sender, channel, token, *amount, contract, msg),
             Op::Relay { channel, seq, outcome } => self.w.relay(channel, *seq, outcome_of(outcome)),
             Op::Sudo { contract, msg } => self.w.sudo(contract, msg),
             Op::Advance { secs } => {
@@ -307,6 +314,10 @@ impl Sc {
             }
             Op::NativeMint { addr, amount } => {
                 self.w.native_mint(addr, NATIVE_DENOM, *amount);
+                TxResult { ok: true, ..Default::default() }
+            }
+            Op::NativeMintToken { addr, token, amount } => {
+                self.w.native_mint(addr, token, *amount);
                 TxResult { ok: true, ..Default::default() }
             }
             Op::NativeBurn { addr, amount } => {
